@@ -201,6 +201,8 @@ class ForwardScheduler(IScheduler):
             task: Task,
             max_steps: int = 100000
     ) -> datetime:
+        # capacity is a property of the day: the usage ledger and the reservation loop ask for it at midnight
+        start_date = datetime(start_date.year, start_date.month, start_date.day, 0, 0, 0, 0)
         d = resource.get_nearest_availability_date(start_date, 1)
 
         for i in range(0, max_steps):
@@ -378,6 +380,8 @@ class BackwardScheduler(IScheduler):
             task: Task,
             max_steps: int = 1000
     ) -> datetime:
+        # capacity is a property of the day: the usage ledger and the reservation loop ask for it at midnight
+        start_date = datetime(start_date.year, start_date.month, start_date.day, 0, 0, 0, 0)
         d = resource.get_nearest_availability_date(start_date, -1) - timedelta(days=1)
 
         for i in range(0, max_steps):
